@@ -9,7 +9,7 @@
 
    brute f boxes  =  the indices i (in increasing order) of the boxes with f (box i) = true — the
    exhaustive scan.                                                                              *)
-From PF Require Import Trees.Octree Trees.Bvh Trees.OctreeProofs Trees.BvhProofs Trees.ElemProofs Trees.TriProofs Trees.MeshProofs.
+From PF Require Import Trees.Octree Trees.Bvh Trees.OctreeProofs Trees.BvhProofs Trees.ElemProofs Trees.TriProofs Trees.MeshProofs Trees.SphereProofs.
 From PF Require Check.C16 Trees.CheckProofs.
 From Coq Require Import Permutation QArith.
 Open Scope Z_scope.
@@ -146,6 +146,29 @@ Theorem closest_eq_brute_exact : forall (P : Type) (cpt : nat -> P) (kq : nat ->
 Proof. exact closest_eq_brute_exact_thm. Qed.
 Print Assumptions closest_eq_brute_exact.
 
+(* BOX elements (trees.BoundingBoxElement, what rendering.NewBVH indexes) and POINT elements (point clouds):
+   the element's own closest point is the box's clamp / the point, so no hypothesis is left either *)
+Theorem closest_eq_brute_boxes : forall (boxes : list box) q depth t,
+  Forall wf_box boxes ->
+  let ekey := fun i => boxdist2 (nth i boxes zero_pt_box) q in
+  let cpt := fun i => bclosest (nth i boxes zero_pt_box) q in
+  new_octree depth boxes = Some t ->
+  (exists r, closest pt ekey cpt 1 q t = Some r) /\
+  forall i k p, closest pt ekey cpt 1 q t = Some (i, k, p) ->
+    (i < length boxes)%nat /\ k = ekey i /\ p = cpt i /\ forall j, (j < length boxes)%nat -> k <= ekey j.
+Proof. exact closest_eq_brute_boxes_thm. Qed.
+Print Assumptions closest_eq_brute_boxes.
+
+Theorem closest_eq_brute_points : forall (pts : list pt) q depth t,
+  let ekey := fun i => dist2 (vat pts i) q in
+  let cpt := fun i => vat pts i in
+  new_octree depth (mesh_point_boxes pts) = Some t ->
+  (exists r, closest pt ekey cpt 1 q t = Some r) /\
+  forall i k p, closest pt ekey cpt 1 q t = Some (i, k, p) ->
+    (i < length pts)%nat /\ k = ekey i /\ p = cpt i /\ forall j, (j < length pts)%nat -> k <= ekey j.
+Proof. exact closest_eq_brute_points_thm. Qed.
+Print Assumptions closest_eq_brute_points.
+
 (* SEGMENT elements, exact rational model of Line3D.ClosestPointOnLine (seg_closest: parameter
    (p-a).(b-a)/|b-a|^2 clamped to [0,1]): no hypothesis on the elements is left — for every list of
    segments (also zero-length ones), every depth and every query the tree returns a segment whose exact
@@ -224,11 +247,13 @@ Theorem seg_closest_in_box : forall a b t : Q,
 Proof. exact seg_at_between. Qed.
 Print Assumptions seg_closest_in_box.
 
-Theorem tri_closest_in_bbox_partial : forall a b c p,
+(* (named tri_closest_in_bbox_partial until round 4: the special case "point of the plane on the integer
+   grid" of tri_point_in_side_in_bbox above; the full statement is tri_closest_in_bbox) *)
+Theorem tri_point_in_side_in_bbox_grid : forall a b c p,
   0 < dot (cross (vsub b a) (vsub c a)) (cross (vsub b a) (vsub c a)) ->
   coplanar a b c p = true -> tri_in_side a b c p = true -> inb p (tri_box a b c) = true.
 Proof. exact tri_in_side_in_bbox. Qed.
-Print Assumptions tri_closest_in_bbox_partial.
+Print Assumptions tri_point_in_side_in_bbox_grid.
 
 (* the pinned PointInSide (two sign tests) breaks that instance: it accepts a point of the plane
    outside the triangle's box (so the defect of DESIGN §5 entry 28 is in modeling/tri.go, not in the tree) *)
@@ -332,6 +357,27 @@ Theorem bvh_built_hit_is_nearest : forall lbox srt tv dist ry lo,
     nearest_answer tv dist objs hi (bhit tv dist ry lo t hi None).
 Proof. exact bvh_built_hit_nearest_thm. Qed.
 Print Assumptions bvh_built_hit_is_nearest.
+
+(* SPHERE members (rendering.Sphere through NewBVHTree, static or moving linearly over the time window):
+   every point within the radius of the centre at any fraction f of the window lies in the box
+   BoundingBox(start, end) reports once that box is the DIAMETER wide (moving_sphere_box: the repaired
+   Sphere.BoundingBox, fixes/c16-sphere-bounding-box) — the leaf hypothesis of the BVH theorems for spheres *)
+Theorem sphere_hit_in_bbox : forall c0 c1 r f (X : qpt),
+  0 <= r -> (0 <= f)%Q -> (f <= 1)%Q ->
+  (qdist2q X (centre_at c0 c1 f) <= zq r * zq r)%Q ->
+  in_qbox X (moving_sphere_box c0 c1 r).
+Proof. exact moving_sphere_point_in_box_thm. Qed.
+Print Assumptions sphere_hit_in_bbox.
+
+(* the pinned Sphere.BoundingBox hands the RADIUS to NewAABB(center, size): the box reaches radius/2 only, a
+   point of the sphere lies outside its own box (so BVHNode.Hit / Tree.Hit over spheres miss hits HitList.Hit
+   finds: FailKey bvh:sphere-box-half-size) *)
+Theorem sphere_bbox_pinned_refuted :
+  exists (c : pt) (r : Z) (X : qpt),
+    0 <= r /\ (qdist2q X (centre_at c c 0) == zq r * zq r)%Q /\
+    ~ in_qbox X (sphere_box_pinned c r) /\ in_qbox X (sphere_box c r).
+Proof. exact sphere_box_pinned_refuted_thm. Qed.
+Print Assumptions sphere_bbox_pinned_refuted.
 
 (* MESH-LEVEL ENTRY POINTS.  Mesh.OctTree / OctTreeDepth / OctTreeWithAttributeAndDepth hand "primitive i of
    the mesh, scoped to the attribute" to NewOctreeWithDepth as element i (mesh_boxes kind verts idx: point
